@@ -88,7 +88,15 @@ func buildScript(vc *VC, o *Obligation, withModel bool) string {
 	if !o.Reach.IsTrue() {
 		b.WriteString("(assert " + o.Reach.S + ")\n")
 	}
-	b.WriteString("(assert " + Not(o.Goal).S + ")\n")
+	// the negated goal, with a universally quantified goal skolemised here (rather than inside the solver) so that the
+	// products it mentions are ground terms the multiplication lemmas below can talk about
+	goalLines := negatedGoal(o.Goal)
+	for _, l := range goalLines {
+		b.WriteString(l + "\n")
+	}
+	for _, l := range productLemmas(vc.lines[:o.Pos], goalLines) {
+		b.WriteString(l + "\n")
+	}
 	b.WriteString("(check-sat)\n")
 	if withModel {
 		b.WriteString("(get-model)\n")
@@ -287,4 +295,171 @@ func firstLines(s string, n int) string {
 		ls = ls[:n]
 	}
 	return strings.Join(ls, "\n")
+}
+
+
+// negatedGoal renders (assert (not goal)); a goal of the form forall xs. body, or A => forall xs. body, is skolemised.
+func negatedGoal(goal Term) []string {
+	plain := []string{"(assert " + Not(goal).S + ")"}
+	if !strings.Contains(goal.S, "(forall ") || !strings.Contains(goal.S, "(* ") {
+		return plain
+	}
+	n := parseSx(goal.S)
+	if n == nil {
+		return plain
+	}
+	var out []string
+	for n.head() == "=>" && len(n.kids) == 3 {
+		out = append(out, "(assert "+n.kids[1].String()+")")
+		n = n.kids[2]
+	}
+	if n.head() != "forall" || len(n.kids) != 3 {
+		return plain
+	}
+	ren := map[string]string{}
+	for _, bnd := range n.kids[1].kids {
+		if len(bnd.kids) != 2 {
+			return plain
+		}
+		v := bnd.kids[0].String()
+		sk := "|sk!" + strings.NewReplacer("|", "", "?", "!").Replace(v) + "|"
+		ren[v] = sk
+		out = append(out, "(declare-const "+sk+" "+bnd.kids[1].String()+")")
+	}
+	body := n.kids[2]
+	if body.head() == "!" && len(body.kids) >= 2 {
+		body = body.kids[1]
+	}
+	var subst func(e *sx) *sx
+	subst = func(e *sx) *sx {
+		if e.kids == nil {
+			if r, ok := ren[e.atom]; ok {
+				return &sx{atom: r}
+			}
+			return e
+		}
+		c := &sx{}
+		for _, k := range e.kids {
+			c.kids = append(c.kids, subst(k))
+		}
+		return c
+	}
+	out = append(out, "(assert (not "+subst(body).String()+"))")
+	return out
+}
+
+// productLemmas: for every two ground products x*f and y*f with a common factor that occur in the query, the instances
+//   x <= y && f >= 0  ==>  x*f <= y*f,        x < y && f >= 0  ==>  x*f + f <= y*f        and        y == x+1  ==>  y*f == x*f + f
+// of the monotonicity of multiplication and of distributivity (theorems of integer arithmetic; the solvers' non-linear engines find them only
+// erratically). Nothing is added for queries without two such products.
+func productLemmas(lines []string, goal []string) []string {
+	type prod struct{ x, f string }
+	seen := map[string]bool{}
+	byFactor := map[string][]string{}
+	var order []string
+	var walk func(e *sx, bound map[string]bool)
+	ground := func(e *sx, bound map[string]bool) bool {
+		vs := map[string]bool{}
+		e.vars(bound, vs)
+		return len(vs) == 0
+	}
+	walk = func(e *sx, bound map[string]bool) {
+		if e.kids == nil {
+			return
+		}
+		if h := e.head(); (h == "forall" || h == "exists") && len(e.kids) == 3 {
+			nb := map[string]bool{}
+			for k := range bound {
+				nb[k] = true
+			}
+			for _, bnd := range e.kids[1].kids {
+				if len(bnd.kids) == 2 {
+					nb[bnd.kids[0].String()] = true
+				}
+			}
+			walk(e.kids[2], nb)
+			return
+		}
+		if e.head() == "*" && len(e.kids) == 3 && ground(e, bound) {
+			a, b := e.kids[1].String(), e.kids[2].String()
+			_, la := litVal(a)
+			_, lb := litVal(b)
+			if !la && !lb && a != b {
+				for _, pr := range [][2]string{{a, b}, {b, a}} {
+					key := pr[0] + " * " + pr[1]
+					if !seen[key] {
+						seen[key] = true
+						if _, ok := byFactor[pr[1]]; !ok {
+							order = append(order, pr[1])
+						}
+						byFactor[pr[1]] = append(byFactor[pr[1]], pr[0])
+					}
+				}
+			}
+		}
+		for _, k := range e.kids {
+			walk(k, bound)
+		}
+	}
+	scan := func(l string) {
+		if !strings.Contains(l, "(* ") || !strings.HasPrefix(l, "(assert ") {
+			return
+		}
+		if n := parseSx(l); n != nil {
+			walk(n, map[string]bool{})
+		}
+	}
+	hasSk := false
+	for _, l := range goal {
+		if strings.Contains(l, "sk!") && strings.Contains(l, "(* ") {
+			hasSk = true
+		}
+	}
+	if !hasSk {
+		return nil // only goals that were skolemised above need help
+	}
+	for _, l := range lines {
+		scan(l)
+	}
+	for _, l := range goal {
+		scan(l)
+	}
+	var out []string
+	mul := func(x, f string) string {
+		if f < x {
+			return "(* " + f + " " + x + ")"
+		}
+		return "(* " + x + " " + f + ")"
+	}
+	for _, f := range order {
+		xs := byFactor[f]
+		// a product with a skolem factor against the factor itself: x >= 1 && f >= 0 ==> x*f >= f, x >= 0 && f >= 0 ==> x*f >= 0
+		for _, x := range xs {
+			if strings.Contains(x, "sk!") && len(out) < 120 {
+				out = append(out, fmt.Sprintf("(assert (=> (and (>= %s 1) (>= %s 0)) (>= %s %s)))", x, f, mul(x, f), f))
+				out = append(out, fmt.Sprintf("(assert (=> (and (>= %s 0) (>= %s 0)) (>= %s 0)))", x, f, mul(x, f)))
+			}
+		}
+		if len(xs) < 2 || len(xs) > 8 {
+			continue
+		}
+		for i := 0; i < len(xs); i++ {
+			for j := 0; j < len(xs); j++ {
+				if i == j {
+					continue
+				}
+				x, y := xs[i], xs[j]
+				if !strings.Contains(x, "sk!") && !strings.Contains(y, "sk!") {
+					continue
+				}
+				out = append(out, fmt.Sprintf("(assert (=> (and (<= %s %s) (>= %s 0)) (<= %s %s)))", x, y, f, mul(x, f), mul(y, f)))
+				out = append(out, fmt.Sprintf("(assert (=> (and (< %s %s) (>= %s 0)) (<= (+ %s %s) %s)))", x, y, f, mul(x, f), f, mul(y, f)))
+				out = append(out, fmt.Sprintf("(assert (=> (= %s (+ %s 1)) (= %s (+ %s %s))))", y, x, mul(y, f), mul(x, f), f))
+			}
+		}
+		if len(out) > 120 {
+			break
+		}
+	}
+	return out
 }
